@@ -10,6 +10,7 @@ from vlib.report import loc_of
 WC = "bgpfu::query::RpslEvaluator::with_connection"
 
 EXPLANATION = (
+    "[Method] R1: with_connection is explored per outcome of take() and of the resolver closure (abstract interpretation); R2/R3 scan MIR and item metadata. "
     "C17/R1 (MUSTPASS): in RpslEvaluator::with_connection every CFG path from the success edge of self.conn.take().ok_or(..)? to a "
     "return passes through the assignment self.conn = Some(conn) of the very connection that was taken; there is no `?` or early "
     "return between the resolver call and the restore, so a failed resolver call leaves the evaluator usable. C17/R2 (WHO): the conn "
